@@ -156,7 +156,15 @@ def bar(
 @check_ndim(2)
 def map(h2: Histogram2D, **kwargs) -> go.Figure:
     """Heatmap."""
-    data = [go.Heatmap(z=h2.frequencies, **kwargs)]
+    # Rows of `z` run along the y axis; the bin edges position (also irregular) cells
+    data = [
+        go.Heatmap(
+            z=h2.frequencies.T,
+            x=h2.get_bin_edges(0),
+            y=h2.get_bin_edges(1),
+            **kwargs,
+        )
+    ]
     layout = go.Layout()
     figure = go.Figure(data=data, layout=layout)
     return figure
